@@ -23,6 +23,7 @@ import Gotlcp.Lemmas.FlightsEval2TT
 import Gotlcp.Oracle.C19
 import Gotlcp.Spec.FlightsSpec
 import Gotlcp.Generated.Facts
+import Gotlcp.Tie.Timer
 
 namespace Gotlcp.Props.C19
 open Gotlcp.Model.Flights
@@ -259,5 +260,32 @@ example :
 example :
     let n := run (paramsOfFacts 1 4 false false) [⟨true, 3, .drop⟩] true 24
     success n = true ∧ n.c.hsAt = some 1 ∧ n.c.timeouts = 1 := by decide
+
+/-! ### the back-off law of the SOURCE TEXT
+
+`Gotlcp.Src.dtlcp.RetransmitTimer.{backoff, reset}` are regenerated from dtlcp/retransmit.go by the
+translator `harness/cmd/go2lean` on every run (`time.Duration` = `int64` as `BitVec 64`, signed
+comparison; `start()` is a stub that counts how often the timer is re-armed). -/
+
+theorem C19_src_translated : Src.untranslated = [] := by decide
+
+/-- After a reset and k expiries the TRANSLATED timer holds the k-th term of the documented schedule
+`min(initial·2^k, max)` (nanoseconds, `0 ≤ initial ≤ max < 2^62` ≈ 146 years), never exceeds `max`,
+and has been re-armed exactly once per expiry. -/
+theorem C19_src_backoff (t : Src.dtlcp.RetransmitTimer) (hi : 0 ≤ t.initial.toInt)
+    (him : t.initial.toInt ≤ t.max.toInt) (hm : t.max.toInt < 2 ^ 62) (k : Nat) :
+    let tk := Tie.Timer.backoffs k (Src.dtlcp.RetransmitTimer.reset t)
+    tk.current.toInt.toNat = sched t.initial.toInt.toNat t.max.toInt.toNat k
+      ∧ tk.current.toInt ≤ t.max.toInt ∧ tk.starts = t.starts + 1 + k := by
+  have h := Tie.Timer.tie_schedule t hi him hm k
+  exact ⟨h.1, h.2.2.1, h.2.2.2.2⟩
+
+/-- non-vacuity: 1 s initial, 4 s maximum, three expiries on the translated code (kernel evaluation) -/
+example :
+    ((Tie.Timer.backoffs 3 (Src.dtlcp.RetransmitTimer.reset
+      { initial := 1000000000#64, current := 0#64, max := 4000000000#64, starts := 0 })).current.toNat,
+     (Tie.Timer.backoffs 1 (Src.dtlcp.RetransmitTimer.reset
+      { initial := 1000000000#64, current := 0#64, max := 4000000000#64, starts := 0 })).current.toNat)
+      = (4000000000, 2000000000) := by decide
 
 end Gotlcp.Props.C19
